@@ -431,11 +431,11 @@ Section PackParse.
   Variable b64_dec hex_dec : bytes -> bytes * bool.
   Variable b64_enc hex_enc : bytes -> bytes.
   (* trusted base: the laws of encoding/base64 (StdEncoding) and encoding/hex *)
-  Hypothesis b64_rt : forall x, b64_dec (b64_enc x) = (x, true).
-  Hypothesis hex_rt : forall x, hex_dec (hex_enc x) = (x, true).
-  Hypothesis b64_clean : forall x, clean (b64_enc x) = true.
-  Hypothesis hex_clean : forall x, clean (hex_enc x) = true.
-  Hypothesis hex_len : forall x, lenN (hex_enc x) = 2 * lenN x.
+  Hypothesis b64_rt : forall x, bytes_ok x -> b64_dec (b64_enc x) = (x, true).
+  Hypothesis hex_rt : forall x, bytes_ok x -> hex_dec (hex_enc x) = (x, true).
+  Hypothesis b64_clean : forall x, bytes_ok x -> clean (b64_enc x) = true.
+  Hypothesis hex_clean : forall x, bytes_ok x -> clean (hex_enc x) = true.
+  Hypothesis hex_len : forall x, bytes_ok x -> lenN (hex_enc x) = 2 * lenN x.
 
   (* ---- a=fmtp of H264 ---- *)
   Definition avc_params (S P : bytes) : list (bytes * bytes) :=
@@ -565,35 +565,36 @@ Section PackParse.
   Qed.
 
   (* ---- the parameter-set readers on what the line parsers return ---- *)
-  Lemma sps_pps_of_avc_params fmt s p :
+  Lemma sps_pps_of_avc_params fmt s p : bytes_ok s -> bytes_ok p ->
     parse_sps_pps b64_dec {| fp_format := fmt; fp_params := avc_params (b64_enc s) (b64_enc p) |} = (Some s, Some p).
   Proof.
-    unfold parse_sps_pps. cbn [fp_params].
+    intros Hs Hp. unfold parse_sps_pps. cbn [fp_params].
     change (map_get k_sprop (avc_params (b64_enc s) (b64_enc p))) with (Some (b64_enc s ++ [44] ++ b64_enc p)).
-    cbn [app]. rewrite break1_app by (apply clean_nob; [reflexivity|apply b64_clean]).
+    cbn [app]. rewrite break1_app by (apply clean_nob; [reflexivity|now apply b64_clean]).
     cbv beta iota. now rewrite !b64_rt.
   Qed.
 
-  Lemma vps_sps_pps_of_hevc_params fmt v s p :
+  Lemma vps_sps_pps_of_hevc_params fmt v s p : bytes_ok v -> bytes_ok s -> bytes_ok p ->
     parse_vps_sps_pps b64_dec {| fp_format := fmt; fp_params := hevc_params (b64_enc s) (b64_enc p) (b64_enc v) |}
     = (Some v, Some s, Some p).
   Proof.
-    unfold parse_vps_sps_pps, dec_param. cbn [fp_params].
+    intros Hv Hs Hp. unfold parse_vps_sps_pps, dec_param. cbn [fp_params].
     change (map_get k_sprop_vps (hevc_params (b64_enc s) (b64_enc p) (b64_enc v))) with (Some (b64_enc v)).
     change (map_get k_sprop_sps (hevc_params (b64_enc s) (b64_enc p) (b64_enc v))) with (Some (b64_enc s)).
     change (map_get k_sprop_pps (hevc_params (b64_enc s) (b64_enc p) (b64_enc v))) with (Some (b64_enc p)).
-    cbv beta iota. rewrite b64_rt. cbv beta iota. rewrite b64_rt. cbv beta iota. rewrite b64_rt. reflexivity.
+    cbv beta iota. rewrite b64_rt by assumption. cbv beta iota. rewrite b64_rt by assumption.
+    cbv beta iota. rewrite b64_rt by assumption. reflexivity.
   Qed.
 
   (* ParseAsc wants at least 4 hex digits: an AudioSpecificConfig shorter than
      2 bytes is written by Pack but not read back *)
-  Lemma asc_of_aac_params fmt c :
+  Lemma asc_of_aac_params fmt c : bytes_ok c ->
     parse_asc hex_dec {| fp_format := fmt; fp_params := aac_params (hex_enc c) |}
     = if 2 <=? lenN c then Some c else None.
   Proof.
-    unfold parse_asc. cbn [fp_params].
+    intro Hc. unfold parse_asc. cbn [fp_params].
     change (map_get k_config (aac_params (hex_enc c))) with (Some (hex_enc c)).
-    cbv beta iota. rewrite !hex_len, hex_rt. cbn [fst].
+    cbv beta iota. rewrite !hex_len, hex_rt by assumption. cbn [fst].
     replace ((2 * lenN c) mod 2 =? 0) with true by (symmetry; apply N.eqb_eq; lia). cbn [negb orb].
     rewrite Bool.orb_false_r. destruct (2 <=? lenN c) eqn:E.
     - apply N.leb_le in E. replace (2 * lenN c <? 4) with false by (symmetry; apply N.ltb_ge; lia). reflexivity.
@@ -625,38 +626,38 @@ Section PackParse.
   Ltac solve_nob :=
     repeat apply nob_app_true;
     first [ reflexivity
-          | apply clean_nob; [reflexivity | first [apply b64_clean | apply hex_clean]]
+          | apply clean_nob; [reflexivity | first [apply b64_clean | apply hex_clean]; assumption]
           | apply fmt_d_nob; [assumption | discriminate | left; reflexivity] ].
   Ltac solve_nocrlf := unfold nocrlf; apply andb_true_intro; split; solve_nob.
 
-  Lemma block_avc s p :
+  Lemma block_avc s p : bytes_ok s -> bytes_ok p ->
     block_ok [t_m_video ++ fmt_d pt_avc; t_rtpmap_h264;
               t_fmtp_avc_1 ++ b64_enc s ++ [44] ++ b64_enc p ++ t_fmtp_avc_2;
               t_control ++ fmt_d 0] (vmd_avc s p).
   Proof.
-    split.
+    intros Hs Hp. split.
     - cbn [forallb]. rewrite !Bool.andb_true_iff. repeat split; try reflexivity. solve_nocrlf.
     - intros rest acc md. cbn [app].
       rewrite (raw_step_m _ {| m_media := k_video; m_pt := 96 |}) by reflexivity.
       rewrite (raw_step_rtpmap _ {| rm_pt := 96; rm_name := k_h264; rm_rate := 90000; rm_params := [] |}) by reflexivity.
       rewrite (raw_step_fmtp _ {| fp_format := 96; fp_params := avc_params (b64_enc s) (b64_enc p) |})
-        by (first [reflexivity | apply fmtp_avc_line; apply b64_clean]).
+        by (first [reflexivity | apply fmtp_avc_line; now apply b64_clean]).
       rewrite (raw_step_control _ q_streamid0) by reflexivity.
       reflexivity.
   Qed.
 
-  Lemma block_hevc v s p :
+  Lemma block_hevc v s p : bytes_ok v -> bytes_ok s -> bytes_ok p ->
     block_ok [t_m_video ++ fmt_d pt_hevc; t_rtpmap_h265;
               t_fmtp_hevc_1 ++ b64_enc s ++ t_fmtp_hevc_2 ++ b64_enc p ++ t_fmtp_hevc_3 ++ b64_enc v;
               t_control ++ fmt_d 0] (vmd_hevc v s p).
   Proof.
-    split.
+    intros Hv Hs Hp. split.
     - cbn [forallb]. rewrite !Bool.andb_true_iff. repeat split; try reflexivity. solve_nocrlf.
     - intros rest acc md. cbn [app].
       rewrite (raw_step_m _ {| m_media := k_video; m_pt := 98 |}) by reflexivity.
       rewrite (raw_step_rtpmap _ {| rm_pt := 98; rm_name := k_h265; rm_rate := 90000; rm_params := [] |}) by reflexivity.
       rewrite (raw_step_fmtp _ {| fp_format := 98; fp_params := hevc_params (b64_enc s) (b64_enc p) (b64_enc v) |})
-        by (first [reflexivity | apply fmtp_hevc_line; apply b64_clean]).
+        by (first [reflexivity | apply fmtp_hevc_line; now apply b64_clean]).
       rewrite (raw_step_control _ q_streamid0) by reflexivity.
       reflexivity.
   Qed.
@@ -664,13 +665,13 @@ Section PackParse.
   Lemma control_line sid : parse_a_control (t_control ++ fmt_d sid) = Ok (q_sid ++ fmt_d sid).
   Proof. reflexivity. Qed.
 
-  Lemma block_aac rate c sid : int64 rate -> int64 sid ->
+  Lemma block_aac rate c sid : bytes_ok c -> int64 rate -> int64 sid ->
     block_ok [t_m_audio ++ fmt_d pt_aac; t_b_as;
               t_rtpmap ++ fmt_d pt_aac ++ t_aac_1 ++ fmt_d rate ++ t_aac_2;
               t_fmtp ++ fmt_d pt_aac ++ t_fmtp_aac ++ hex_enc c;
               t_control ++ fmt_d sid] (amd_aac rate c sid).
   Proof.
-    intros Hr Hs. split.
+    intros Hc Hr Hs. split.
     - cbn [forallb]. rewrite !Bool.andb_true_iff. repeat split; try reflexivity; solve_nocrlf.
     - intros rest acc md. cbn [app].
       rewrite (raw_step_m _ {| m_media := k_audio; m_pt := 97 |}) by reflexivity.
@@ -678,7 +679,7 @@ Section PackParse.
       rewrite (raw_step_rtpmap _ {| rm_pt := 97; rm_name := k_aac; rm_rate := rate; rm_params := q_two |})
         by (first [reflexivity | now apply rtpmap_aac_line]).
       rewrite (raw_step_fmtp _ {| fp_format := 97; fp_params := aac_params (hex_enc c) |})
-        by (first [reflexivity | apply fmtp_aac_line; apply hex_clean]).
+        by (first [reflexivity | apply fmtp_aac_line; now apply hex_clean]).
       rewrite (raw_step_control _ (q_sid ++ fmt_d sid)) by reflexivity.
       reflexivity.
   Qed.
@@ -726,37 +727,37 @@ Section PackParse.
   Definition atrack (pt rate sid : Z) : track :=
     {| tk_has := true; tk_rate := rate; tk_base := pt; tk_orig := pt; tk_ctl := q_sid ++ fmt_d sid |}.
 
-  Lemma logic_avc c s p :
+  Lemma logic_avc c s p : bytes_ok s -> bytes_ok p ->
     logic_step b64_dec hex_dec c (vmd_avc s p)
     = {| lc_raw := lc_raw c; lc_audio := lc_audio c; lc_video := vtrack 96; lc_asc := lc_asc c;
          lc_vps := lc_vps c; lc_sps := Some s; lc_pps := Some p |}.
   Proof.
-    unfold logic_step, vmd_avc. cbn [md_m m_media md_rtpmap rm_name md_fmtp].
+    intros Hs Hp. unfold logic_step, vmd_avc. cbn [md_m m_media md_rtpmap rm_name md_fmtp].
     change (beqb k_video k_audio) with false. change (beqb k_video k_video) with true.
     change (beqb k_h264 k_h264) with true. cbv iota.
-    rewrite sps_pps_of_avc_params. reflexivity.
+    rewrite sps_pps_of_avc_params by assumption. reflexivity.
   Qed.
 
-  Lemma logic_hevc c v s p :
+  Lemma logic_hevc c v s p : bytes_ok v -> bytes_ok s -> bytes_ok p ->
     logic_step b64_dec hex_dec c (vmd_hevc v s p)
     = {| lc_raw := lc_raw c; lc_audio := lc_audio c; lc_video := vtrack 98; lc_asc := lc_asc c;
          lc_vps := Some v; lc_sps := Some s; lc_pps := Some p |}.
   Proof.
-    unfold logic_step, vmd_hevc. cbn [md_m m_media md_rtpmap rm_name md_fmtp].
+    intros Hv Hs Hp. unfold logic_step, vmd_hevc. cbn [md_m m_media md_rtpmap rm_name md_fmtp].
     change (beqb k_video k_audio) with false. change (beqb k_video k_video) with true.
     change (beqb k_h265 k_h264) with false. change (beqb k_h265 k_h265) with true. cbv iota.
-    rewrite vps_sps_pps_of_hevc_params. reflexivity.
+    rewrite vps_sps_pps_of_hevc_params by assumption. reflexivity.
   Qed.
 
-  Lemma logic_aac c rate asc sid :
+  Lemma logic_aac c rate asc sid : bytes_ok asc ->
     logic_step b64_dec hex_dec c (amd_aac rate asc sid)
     = {| lc_raw := lc_raw c; lc_audio := atrack 97 rate sid; lc_video := lc_video c;
          lc_asc := if 2 <=? lenN asc then Some asc else None;
          lc_vps := lc_vps c; lc_sps := lc_sps c; lc_pps := lc_pps c |}.
   Proof.
-    unfold logic_step, amd_aac. cbn [md_m m_media md_rtpmap rm_name md_fmtp].
+    intros Hc. unfold logic_step, amd_aac. cbn [md_m m_media md_rtpmap rm_name md_fmtp].
     change (beqb k_audio k_audio) with true. change (equal_fold k_aac k_aac) with true. cbv iota.
-    rewrite asc_of_aac_params. reflexivity.
+    rewrite asc_of_aac_params by assumption. reflexivity.
   Qed.
 
   Lemma logic_plain c pt name rate params sid :
@@ -785,6 +786,10 @@ Section PackParse.
     else if (ai_pt a =? pt_opus)%Z then Some (pt_opus, 48000%Z, None)
     else None.
 
+  Definition opt_ok (o : option bytes) : Prop := match o with Some x => bytes_ok x | None => True end.
+  Definition vinfo_ok (v : video_info) : Prop := opt_ok (vi_vps v) /\ opt_ok (vi_sps v) /\ opt_ok (vi_pps v).
+  Definition ainfo_ok (a : audio_info) : Prop := opt_ok (ai_asc a).
+
   Definition exp_ctx (raw : bytes) (vk : option (Z * option bytes * bytes * bytes))
              (ak : option (Z * Z * option bytes)) : logic_ctx :=
     {| lc_raw := raw;
@@ -802,7 +807,7 @@ Section PackParse.
        lc_pps := match vk with Some (_, _, _, p) => Some p | None => None end |}.
 
   (* the video block: its media description, or no lines at all *)
-  Lemma video_block v :
+  Lemma video_block v : vinfo_ok v ->
     match video_kind v with
     | Some (pt, vp, s, p) =>
       exists d, block_ok (video_lines b64_enc v 0) d /\ video_lines b64_enc v 0 <> [] /\
@@ -813,16 +818,17 @@ Section PackParse.
     | None => video_lines b64_enc v 0 = []
     end.
   Proof.
-    destruct v as [pt vps sps pps]. unfold video_kind, video_lines. cbn [vi_pt vi_vps vi_sps vi_pps].
+    destruct v as [pt vps sps pps]. unfold vinfo_ok, video_kind, video_lines. cbn [vi_pt vi_vps vi_sps vi_pps].
+    intros (Hv & Hs & Hp).
     destruct (pt =? pt_avc)%Z eqn:E1.
-    - destruct sps as [s|], pps as [p|]; try reflexivity.
-      exists (vmd_avc s p). split; [apply block_avc|]. split; [discriminate|]. intro c. apply logic_avc.
+    - destruct sps as [s|], pps as [p|]; try reflexivity. cbn [opt_ok] in *.
+      exists (vmd_avc s p). split; [now apply block_avc|]. split; [discriminate|]. intro c. now apply logic_avc.
     - destruct (pt =? pt_hevc)%Z eqn:E2; [|reflexivity].
-      destruct sps as [s|], pps as [p|], vps as [vp|]; try reflexivity.
-      exists (vmd_hevc vp s p). split; [apply block_hevc|]. split; [discriminate|]. intro c. apply logic_hevc.
+      destruct sps as [s|], pps as [p|], vps as [vp|]; try reflexivity. cbn [opt_ok] in *.
+      exists (vmd_hevc vp s p). split; [now apply block_hevc|]. split; [discriminate|]. intro c. now apply logic_hevc.
   Qed.
 
-  Lemma audio_block a sid : int64 (ai_rate a) -> int64 sid ->
+  Lemma audio_block a sid : ainfo_ok a -> int64 (ai_rate a) -> int64 sid ->
     match audio_kind a with
     | Some (pt, rate, asc) =>
       exists d, block_ok (audio_lines hex_enc a sid) d /\ audio_lines hex_enc a sid <> [] /\
@@ -836,10 +842,10 @@ Section PackParse.
     | None => audio_lines hex_enc a sid = []
     end.
   Proof.
-    intros Hr Hs. destruct a as [pt rate asc]. unfold audio_kind, audio_lines. cbn [ai_pt ai_rate ai_asc] in *.
+    intros Hc Hr Hs. destruct a as [pt rate asc]. unfold ainfo_ok, audio_kind, audio_lines in *. cbn [ai_pt ai_rate ai_asc] in *.
     destruct (pt =? pt_aac)%Z eqn:E1.
-    { destruct asc as [c|]; [|reflexivity].
-      exists (amd_aac rate c sid). split; [now apply block_aac|]. split; [discriminate|]. intro c0. apply logic_aac. }
+    { destruct asc as [c|]; [|reflexivity]. cbn [opt_ok] in Hc.
+      exists (amd_aac rate c sid). split; [now apply block_aac|]. split; [discriminate|]. intro c0. now apply logic_aac. }
     destruct (pt =? pt_g711a)%Z eqn:E2.
     { exists (amd_plain pt_g711a k_pcma rate [] sid). split.
       - apply (block_g711 pt_g711a k_pcma t_pcma); try assumption; reflexivity.
@@ -883,19 +889,19 @@ Section PackParse.
 
   (* Pack followed by ParseSdp2LogicContext (which Pack itself calls) *)
   Theorem sdp_pack_roundtrip tool v a :
-    nocrlf tool = true -> int64 (ai_rate a) ->
+    nocrlf tool = true -> vinfo_ok v -> ainfo_ok a -> int64 (ai_rate a) ->
     match video_kind v, audio_kind a with
     | None, None => sdp_pack b64_dec hex_dec b64_enc hex_enc tool v a = Err err_other
     | vk, ak => exists raw, sdp_pack_text b64_enc hex_enc tool v a = Some raw /\
                             sdp_pack b64_dec hex_dec b64_enc hex_enc tool v a = Ok (exp_ctx raw vk ak)
     end.
   Proof.
-    intros Ht Hr.
+    intros Ht Hvo Hao Hr.
     assert (I0 : int64 0) by (unfold int64; lia). assert (I1 : int64 1) by (unfold int64; lia).
-    pose proof (video_block v) as Hv.
+    pose proof (video_block v Hvo) as Hv.
     destruct (video_kind v) as [[[[vpt vvp] vs] vpp]|] eqn:Ev.
     - destruct Hv as (dv & Hbv & Hne & Hlv).
-      pose proof (audio_block a 1 Hr I1) as Ha.
+      pose proof (audio_block a 1 Hao Hr I1) as Ha.
       assert (Hsid : (match video_lines b64_enc v 0 with [] => 0%Z | _ => 1%Z end) = 1%Z)
         by (destruct (video_lines b64_enc v 0); congruence).
       destruct (audio_kind a) as [[[apt arate] aasc]|] eqn:Ea.
@@ -910,7 +916,7 @@ Section PackParse.
         * rewrite Hsid. exact Ha.
         * exists raw. split; [exact Hraw|]. rewrite Hp. cbn [optl app fold_left]. rewrite Hlv.
           unfold exp_ctx. destruct vvp; reflexivity.
-    - pose proof (audio_block a 0 Hr I0) as Ha.
+    - pose proof (audio_block a 0 Hao Hr I0) as Ha.
       destruct (audio_kind a) as [[[apt arate] aasc]|] eqn:Ea.
       + destruct Ha as (da & Hba & Hne & Hla).
         destruct (pack_eval tool v a _ _ None (Some da) eq_refl eq_refl) as (raw & Hraw & Hp).
@@ -922,4 +928,113 @@ Section PackParse.
           unfold exp_ctx. destruct aasc; reflexivity.
       + unfold sdp_pack, sdp_pack_text, pack_lines. cbv zeta. rewrite Hv, Ha. reflexivity.
   Qed.
+
+  (* the same, field by field *)
+  Corollary sdp_pack_video tool v a pt vp s p :
+    nocrlf tool = true -> vinfo_ok v -> ainfo_ok a -> int64 (ai_rate a) ->
+    video_kind v = Some (pt, vp, s, p) ->
+    exists ctx, sdp_pack b64_dec hex_dec b64_enc hex_enc tool v a = Ok ctx /\
+                lc_video ctx = vtrack pt /\ lc_vps ctx = vp /\ lc_sps ctx = Some s /\ lc_pps ctx = Some p.
+  Proof.
+    intros Ht Hv Ha Hr Hk. pose proof (sdp_pack_roundtrip tool v a Ht Hv Ha Hr) as H. rewrite Hk in H.
+    destruct H as (raw & _ & H). eexists. split; [exact H|]. repeat split.
+  Qed.
+
+  Corollary sdp_pack_audio tool v a pt rate asc :
+    nocrlf tool = true -> vinfo_ok v -> ainfo_ok a -> int64 (ai_rate a) ->
+    audio_kind a = Some (pt, rate, asc) ->
+    exists ctx, sdp_pack b64_dec hex_dec b64_enc hex_enc tool v a = Ok ctx /\
+                lc_audio ctx = atrack pt rate (match video_kind v with Some _ => 1 | None => 0 end) /\
+                lc_asc ctx = match asc with Some c => if 2 <=? lenN c then Some c else None | None => None end.
+  Proof.
+    intros Ht Hv Ha Hr Hk. pose proof (sdp_pack_roundtrip tool v a Ht Hv Ha Hr) as H. rewrite Hk in H.
+    destruct (video_kind v) as [k|]; destruct H as (raw & _ & H); eexists; (split; [exact H|]); repeat split.
+  Qed.
+
+  Corollary sdp_pack_refuses tool v a :
+    video_kind v = None -> audio_kind a = None ->
+    sdp_pack b64_dec hex_dec b64_enc hex_enc tool v a = Err err_other.
+  Proof.
+    intros Hv Ha. unfold sdp_pack, sdp_pack_text, pack_lines. cbv zeta.
+    assert (E1 : video_lines b64_enc v 0 = []).
+    { destruct v as [pt vps sps pps]. unfold video_kind, video_lines in *. cbn [vi_pt vi_vps vi_sps vi_pps] in *.
+      destruct (pt =? pt_avc)%Z; [destruct sps, pps; congruence|].
+      destruct (pt =? pt_hevc)%Z; [destruct sps, pps, vps; congruence|reflexivity]. }
+    assert (E2 : audio_lines hex_enc a 0 = []).
+    { destruct a as [pt rate asc]. unfold audio_kind, audio_lines in *. cbn [ai_pt ai_rate ai_asc] in *.
+      destruct (pt =? pt_aac)%Z; [destruct asc; congruence|].
+      destruct (pt =? pt_g711a)%Z; [congruence|]. destruct (pt =? pt_g711u)%Z; [congruence|].
+      destruct (pt =? pt_opus)%Z; [congruence|reflexivity]. }
+    rewrite E1, E2. reflexivity.
+  Qed.
 End PackParse.
+
+(* ------------------------------------------------------------------ *)
+(* the codec laws are satisfiable: a lower-case hexadecimal codec meets all
+   five (it stands in for base64 as well; only the laws matter) *)
+Definition hexdig (n : N) : N := if n <? 10 then 48 + n else 87 + n.
+Definition hexval (c : N) : option N :=
+  if (48 <=? c) && (c <=? 57) then Some (c - 48)
+  else if (97 <=? c) && (c <=? 102) then Some (c - 87) else None.
+Definition w_enc (x : bytes) : bytes := flat_map (fun b => [hexdig (b / 16); hexdig (b mod 16)]) x.
+Fixpoint w_dec_fuel (fuel : nat) (s : bytes) : bytes * bool :=
+  match fuel with
+  | O => ([], false)
+  | S f =>
+    match s with
+    | [] => ([], true)
+    | [_] => ([], false)
+    | a :: b :: t =>
+      match hexval a, hexval b with
+      | Some h, Some l => let (r, ok) := w_dec_fuel f t in ((h * 16 + l) :: r, ok)
+      | _, _ => ([], false)
+      end
+    end
+  end.
+Definition w_dec (s : bytes) : bytes * bool := w_dec_fuel (S (length s)) s.
+
+Lemma hexval_hexdig n : n < 16 -> hexval (hexdig n) = Some n.
+Proof.
+  intro H.
+  assert (C : n = 0 \/ n = 1 \/ n = 2 \/ n = 3 \/ n = 4 \/ n = 5 \/ n = 6 \/ n = 7 \/ n = 8 \/ n = 9 \/ n = 10 \/
+              n = 11 \/ n = 12 \/ n = 13 \/ n = 14 \/ n = 15) by lia.
+  repeat (destruct C as [->|C]; [reflexivity|]). subst. reflexivity.
+Qed.
+
+Lemma hexdig_clean n : n < 16 -> clean_char (hexdig n) = true.
+Proof.
+  intro H.
+  assert (C : n = 0 \/ n = 1 \/ n = 2 \/ n = 3 \/ n = 4 \/ n = 5 \/ n = 6 \/ n = 7 \/ n = 8 \/ n = 9 \/ n = 10 \/
+              n = 11 \/ n = 12 \/ n = 13 \/ n = 14 \/ n = 15) by lia.
+  repeat (destruct C as [->|C]; [reflexivity|]). subst. reflexivity.
+Qed.
+
+Lemma w_dec_fuel_enc x : forall fuel, bytes_ok x -> (length (w_enc x) < fuel)%nat -> w_dec_fuel fuel (w_enc x) = (x, true).
+Proof.
+  induction x as [|b x IH]; intros fuel Hx Hf.
+  - destruct fuel; [inversion Hf|reflexivity].
+  - inversion Hx as [|? ? Hb Hx']; subst.
+    change (w_enc (b :: x)) with (hexdig (b / 16) :: hexdig (b mod 16) :: w_enc x) in *.
+    destruct fuel as [|fuel]; [inversion Hf|]. cbn [w_dec_fuel length] in *.
+    rewrite !hexval_hexdig by (try (apply N.div_lt_upper_bound; lia); apply N.mod_lt; discriminate).
+    rewrite IH by (try assumption; lia).
+    f_equal. f_equal. lia.
+Qed.
+
+Lemma w_rt x : bytes_ok x -> w_dec (w_enc x) = (x, true).
+Proof. intro H. unfold w_dec. apply w_dec_fuel_enc; [exact H|lia]. Qed.
+
+Lemma w_clean x : bytes_ok x -> clean (w_enc x) = true.
+Proof.
+  induction x as [|b x IH]; intro Hx; [reflexivity|]. inversion Hx as [|? ? Hb Hx']; subst.
+  change (w_enc (b :: x)) with (hexdig (b / 16) :: hexdig (b mod 16) :: w_enc x).
+  unfold clean in *. cbn [forallb].
+  rewrite !hexdig_clean by (try (apply N.div_lt_upper_bound; lia); apply N.mod_lt; discriminate).
+  now rewrite IH.
+Qed.
+
+Lemma w_len x : bytes_ok x -> lenN (w_enc x) = 2 * lenN x.
+Proof.
+  intros _. unfold lenN. induction x as [|b x IH]; [reflexivity|].
+  change (w_enc (b :: x)) with (hexdig (b / 16) :: hexdig (b mod 16) :: w_enc x). cbn [length]. lia.
+Qed.
